@@ -234,6 +234,8 @@ class C12(Prop):
         if case.comp == "allocstress":
             for op, l in zip(case.ops, il):
                 fs = op.split()
+                if l == "skipped-after-hangs":
+                    return fails
                 if fs[0] == "stress" and l != "ok %d" % (int(fs[1]) * int(fs[2])):
                     fails.append("concurrent run: %s" % l)
                 elif fs[0] == "reset" and l != "ok":
